@@ -33,21 +33,29 @@ def cases(thorough):
     return out
 
 
-def analyse(case, tier):
+def analyse(case, tier, which="functions"):
     res = {"case": case.name, "ok": [], "unknown": [], "viol": [], "errors": [], "notes": [], "samples": [], "solver_s": 0.0, "programs": 0, "functions": []}
     try:
-        _analyse(case, tier, res)
+        _analyse(case, tier, res, which)
     except Exception as e:
         res["errors"].append(f"{type(e).__name__}: {e}\n{traceback.format_exc()[-1500:]}")
     return res
 
 
-def _analyse(case, tier, res):
+def _analyse(case, tier, res, which="functions"):
     p = proj.render(case.name, case.with_targets([proj.TARGETS["dense"], proj.TARGETS["odeint"]]))
     if not p.ok:
         res["notes"].append(f"generator refused: {p.meta.get('error')}")
         return
     meta = p.meta
+    if which == "class":
+        for tdir in ("cvode_dense", "odeint_rosenbrock4"):
+            if p.target_ok(tdir):
+                try:
+                    _class_level(case, p, tdir, res)
+                except Inconclusive as e:
+                    res["unknown"].append((f"{case.name}/{tdir}:Naunet::Renorm", f"encoder: {e}"))
+        return
     for tdir in ("cvode_dense", "odeint_rosenbrock4"):
         if not p.target_ok(tdir):
             res["notes"].append(f"{tdir}: {p.meta['targets'][tdir].get('error')}")
@@ -141,13 +149,20 @@ def _one(case, p, meta, tdir, res):
     b = [sum((R(A[i][j]) * r[j] for j in range(NE)), z3.RealVal(0)) for i in range(NE)]
 
     def ask(name, bad, what, extra=()):
-        s.push()
-        for e in extra:
-            s.add(e)
-        s.add(bad)
-        rr = str(s.check())
-        m = s.model() if rr == "sat" else None
-        s.pop()
+        rr = None
+        if not extra and z3.is_distinct(bad) and bad.num_args() == 2:
+            # polynomial identity: z3's sum-of-monomials normal form of lhs - rhs is literally 0
+            if z3.is_rational_value(z3.simplify(bad.arg(0) - bad.arg(1), som=True)) and z3.simplify(bad.arg(0) - bad.arg(1), som=True).as_fraction() == 0:
+                rr, m = "unsat", None
+                res["normal_form"] = res.get("normal_form", 0) + 1
+        if rr is None:
+            s.push()
+            for e in extra:
+                s.add(e)
+            s.add(bad)
+            rr = str(s.check())
+            m = s.model() if rr == "sat" else None
+            s.pop()
         if rr == "unsat":
             res["ok"].append(name)
             if len(res["samples"]) < 3:
@@ -209,13 +224,417 @@ def _work(a):
     return analyse(*a)
 
 
+# --------------------------------------------------------------------------- class level: Naunet::Renorm / SetReferenceAbund
+def _callees(M, fname):
+    import re
+
+    calls = set()
+    for b in M.funcs[fname].blocks.values():
+        for I in b:
+            if I.op in ("call", "invoke"):
+                m = re.search(r"@([\w.$]+)\(", I.text)
+                if m:
+                    calls.add(m.group(1))
+    return H.demangle(sorted(calls))
+
+
+def run_class_renorm(p, tdir):
+    """Naunet::Renorm of the emitted naunet.cpp over a symbolic object state.  The library calls are
+    stubs with the documented aliasing behaviour: N_VMake_Serial wraps the caller's array, N_VNew_Serial
+    owns fresh storage, SUNLinSolSolve(LS, A, x, b) / lu_substitute(A, pm, x) read the right-hand side and
+    then overwrite x with an arbitrary solution vector `sol`; InitRenorm / RenormAbundance are recorded."""
+    from . import c19
+    from ..irsym import Machine
+
+    macros = p.macros(tdir)
+    NS, NE = macros["NSPECIES"], macros["NELEMENTS"]
+    ll, err = p.compile_ir(tdir, "naunet.cpp")
+    if ll is None:
+        raise Inconclusive("naunet.cpp does not lower: " + err[-200:])
+    M = Machine([ll], H.base_stubs())
+    dem = H.demangle(sorted(M.funcs))
+    fields = c19.class_fields(p, tdir)
+    offs, size, _ = M.struct_layout("%class.Naunet")
+    if len(offs) != len(fields) or "ab_ref_" not in fields:
+        raise Inconclusive(f"class Naunet: {len(offs)} IR fields vs {len(fields)} declared members")
+    fo = {n: o for n, (o, _) in zip(fields, offs)}
+    st = State()
+    st.size["this"] = size
+    ref = [z3.Real(f"ref{i}") for i in range(NE)]
+    st.mem["this"] = {fo["ab_ref_"] + 8 * i: ref[i] for i in range(NE)}
+    if "errfp_" in fo:
+        st.mem["this"][fo["errfp_"]] = Ptr("errfp", 0)
+    ab = [z3.Real(f"ab{i}") for i in range(NS)]
+    H.make_array(st, "ab", NS, ab)
+    sol = [z3.Real(f"sol{i}") for i in range(NE)]
+    rec = {"solve": [], "renorm": [], "init": [], "n": 0, "order": []}
+    lens = {}
+
+    def new(prefix):
+        rec["n"] += 1
+        return f"{prefix}{rec['n']}"
+
+    def nv_make(M_, st_, a):
+        o = new("nv")
+        st_.size[o], st_.mem[o], lens[o] = 8, {0: a[1]}, a[0]
+        return st_, Ptr(o, 0)
+
+    def nv_new(M_, st_, a):
+        d, n = new("nvdata"), a[0]
+        st_.size[d], st_.mem[d] = 8 * n, {8 * i: z3.Real(f"{d}_uninit{i}") for i in range(n)}
+        o = new("nv")
+        st_.size[o], st_.mem[o], lens[o] = 8, {0: Ptr(d, 0)}, n
+        return st_, Ptr(o, 0)
+
+    def nv_const(M_, st_, a):
+        dp = st_.load(a[1].obj, 0)
+        for i in range(lens[a[1].obj]):
+            st_.store(dp.obj, dp.off + 8 * i, a[0])
+        return st_, 0
+
+    def flag(nm):
+        return lambda M_, st_, a: (st_, M_.fresh_int(nm))
+
+    def ctx_create(M_, st_, a):
+        st_.store(a[1].obj, a[1].off, Ptr("sunctx", 0))
+        return st_, M_.fresh_int("ctxflag")
+
+    def opaque(nm):
+        def f(M_, st_, a):
+            o = new(nm)
+            st_.size[o], st_.mem[o] = 8, {}
+            return st_, Ptr(o, 0)
+
+        return f
+
+    def init_renorm(M_, st_, a):
+        rec["init"].append((st_.pathcond(), a[0], a[1]))
+        rec["order"].append("init")
+        return st_, 0
+
+    def solve_cvode(M_, st_, a):
+        A, x, b = a[1], a[2], a[3]
+        bp, xp = st_.load(b.obj, 0), st_.load(x.obj, 0)
+        bv = [st_.load(bp.obj, bp.off + 8 * i) for i in range(NE)]
+        for i in range(NE):
+            st_.store(xp.obj, xp.off + 8 * i, sol[i])
+        rec["solve"].append((st_.pathcond(), A, bv))
+        rec["order"].append("solve")
+        return st_, M_.fresh_int("solveflag")
+
+    def renorm_cvode(M_, st_, a):
+        rp = a[0]
+        rec["renorm"].append((st_.pathcond(), [st_.load(rp.obj, rp.off + 8 * i) for i in range(NE)], a[1]))
+        rec["order"].append("renorm")
+        return st_, 0
+
+    # uBLAS objects: {0: n, 8: data pointer}
+    def vec_ctor(M_, st_, a):
+        d, n = new("vdata"), a[1]
+        st_.size[d], st_.mem[d] = 8 * n, {8 * i: z3.RealVal(0) for i in range(n)}
+        st_.store(a[0].obj, a[0].off, n)
+        st_.store(a[0].obj, a[0].off + 8, Ptr(d, 0))
+        return st_, None
+
+    def vec_copy(M_, st_, a):
+        n = st_.load(a[1].obj, a[1].off)
+        sp = st_.load(a[1].obj, a[1].off + 8)
+        d = new("vdata")
+        st_.size[d], st_.mem[d] = 8 * n, {8 * i: st_.load(sp.obj, sp.off + 8 * i) for i in range(n)}
+        st_.store(a[0].obj, a[0].off, n)
+        st_.store(a[0].obj, a[0].off + 8, Ptr(d, 0))
+        return st_, None
+
+    def vec_at(M_, st_, a):
+        dp = st_.load(a[0].obj, a[0].off + 8)
+        i = a[1]
+        if not isinstance(i, int):
+            raise Inconclusive("symbolic vector index in Naunet::Renorm")
+        return st_, Ptr(dp.obj, dp.off + 8 * i)
+
+    def mat_ctor(M_, st_, a):
+        st_.store(a[0].obj, a[0].off, a[1])
+        st_.store(a[0].obj, a[0].off + 8, a[2])
+        return st_, None
+
+    def mat_size1(M_, st_, a):
+        return st_, st_.load(a[0].obj, a[0].off)
+
+    def lu_subst(M_, st_, a):
+        A, x = a[0], a[2]
+        xp = st_.load(x.obj, x.off + 8)
+        bv = [st_.load(xp.obj, xp.off + 8 * i) for i in range(NE)]
+        for i in range(NE):
+            st_.store(xp.obj, xp.off + 8 * i, sol[i])
+        rec["solve"].append((st_.pathcond(), A, bv))
+        rec["order"].append("solve")
+        return st_, None
+
+    def renorm_odeint(M_, st_, a):
+        v = a[0]
+        dp = st_.load(v.obj, v.off + 8)
+        rec["renorm"].append((st_.pathcond(), [st_.load(dp.obj, dp.off + 8 * i) for i in range(NE)], a[1]))
+        rec["order"].append("renorm")
+        return st_, 0
+
+    noop = lambda M_, st_, a: (st_, 0)
+    M.stubs.update({"SUNContext_Create": ctx_create, "SUNContext_Free": noop, "N_VMake_Serial": nv_make, "N_VNew_Serial": nv_new, "N_VConst": nv_const,
+                    "N_VGetArrayPointer": lambda M_, st_, a: (st_, st_.load(a[0].obj, 0)), "N_VDestroy": noop, "SUNMatDestroy": noop, "SUNLinSolFree": noop,
+                    "SUNDenseMatrix": opaque("Amat"), "SUNSparseMatrix": opaque("Amat"), "SUNLinSol_Dense": opaque("LS"), "SUNLinSol_KLU": opaque("LS"),
+                    "SUNLinSolSetup": flag("setupflag"), "SUNLinSolSolve": solve_cvode})
+    fname = next((n for n, d in dem.items() if d.startswith("Naunet::Renorm(")), None)
+    if fname is None:
+        raise Inconclusive("no Naunet::Renorm in naunet.cpp")
+    import re
+
+    for n, d in _callees(M, fname).items():
+        d = d or ""
+        if d.startswith("InitRenorm("):
+            M.stubs[n] = init_renorm
+        elif d.startswith("RenormAbundance(boost"):
+            M.stubs[n] = renorm_odeint
+        elif d.startswith("RenormAbundance("):
+            M.stubs[n] = renorm_cvode
+        elif re.search(r"ublas::vector<double>::vector\(unsigned long\)", d):
+            M.stubs[n] = vec_ctor
+        elif re.search(r"ublas::vector<double>::vector\(boost", d):
+            M.stubs[n] = vec_copy
+        elif re.search(r"ublas::vector<double>::operator(\[\]|\(\))\(unsigned long\)", d):
+            M.stubs[n] = vec_at
+        elif re.search(r"ublas::matrix<double>::matrix\(unsigned long, unsigned long\)", d):
+            M.stubs[n] = mat_ctor
+        elif "ublas::matrix<double>::size1()" in d:
+            M.stubs[n] = mat_size1
+        elif "lu_factorize<" in d:
+            M.stubs[n] = noop
+        elif "lu_substitute<" in d:
+            M.stubs[n] = lu_subst
+        elif re.search(r"::~(vector|matrix|permutation_matrix)\(\)", d) or "permutation_matrix<unsigned long>::permutation_matrix(" in d:
+            M.stubs[n] = lambda M_, st_, a: (st_, None)
+    _, ret = M.run_function(fname, st, [Ptr("this", 0), Ptr("ab", 0)])
+    post = [st.load("this", fo["ab_ref_"] + 8 * i) for i in range(NE)]
+    return {"ret": ret, "rec": rec, "ref": ref, "sol": sol, "post": post, "NE": NE, "NS": NS, "M": M, "fo": fo, "dem": dem, "fields": fields, "size": size}
+
+
+def _class_level(case, p, tdir, res):
+    from .c19 import R_int
+    from ..irsym import RetSet, Throw
+
+    macros = p.macros(tdir)
+    if macros["NELEMENTS"] == 0 or "IDX_ELEM_H" not in macros:
+        return
+    t0 = time.time()
+    r = run_class_renorm(p, tdir)
+    rec, ref, sol, post, NE = r["rec"], r["ref"], r["sol"], r["post"], r["NE"]
+    res["functions"] += [f"{tdir}:Naunet::Renorm", f"{tdir}:Naunet::SetReferenceAbund"]
+    tag = f"{case.name}/{tdir}:Naunet::Renorm"
+    ret = r["ret"]
+    if isinstance(ret, (RetSet, Throw)):
+        raise Inconclusive("Naunet::Renorm has exceptional exits")
+    retz = R_int(ret)
+    s = z3.Solver()
+    s.set("timeout", 60_000)
+
+    def ask(name, bad, what, replay=None, expect="unsat"):
+        rr = str(s.check(bad))
+        if expect == "sat":
+            if rr == "sat":
+                res["ok"].append(name)
+            else:
+                res["errors"].append(f"reachability twin {name}: {rr}")
+            return
+        if rr == "unsat":
+            res["ok"].append(name)
+        elif rr == "sat":
+            m = s.model()
+            rp = {"case": case.name, "target": tdir, "model": {str(d): str(m[d]) for d in m.decls()[:16]}, "spec": case.spec}
+            rp.update(replay() if replay else {"replay_note": "aliasing/ordering fact of the compiled Naunet::Renorm under the documented SUNDIALS/uBLAS call contracts"})
+            if rp.get("native_reproduced") is False:
+                res["errors"].append(f"non-reproducing counterexample for {name}: the native build with a dense direct solver renormalises correctly on three successive calls")
+                return
+            res["viol"].append({"key": name, "what": what, "replay": rp})
+        else:
+            res["unknown"].append((name, "solver " + rr))
+
+    if len(rec["solve"]) < 1 or len(rec["renorm"]) < 1 or len(rec["init"]) < 1:
+        res["viol"].append({"key": f"{tag}:calls", "what": f"Naunet::Renorm does not run InitRenorm -> linear solve -> RenormAbundance (calls seen: {rec['order']})", "replay": {"case": case.name, "target": tdir}})
+        return
+    if rec["order"].index("init") > rec["order"].index("solve") or rec["order"].index("solve") > rec["order"].index("renorm"):
+        res["viol"].append({"key": f"{tag}:order", "what": f"Naunet::Renorm calls its steps in the order {rec['order']}", "replay": {"case": case.name, "target": tdir}})
+    else:
+        res["ok"].append(f"{tag}:order")
+    for pc, abp, A in rec["init"]:
+        ok = abp == Ptr("ab", 0) and all(A == A2 for _, A2, _ in rec["solve"])
+        (res["ok"].append if ok else (lambda n: res["viol"].append({"key": n, "what": "InitRenorm is not applied to the caller's abundances and the matrix that is solved", "replay": {"case": case.name, "target": tdir}})))(f"{tag}:InitRenorm-args")
+    for pc, A, bv in rec["solve"]:
+        for i in range(NE):
+            ask(f"{tag}:rhs[{i}]=stored-reference", z3.And(pc, R(bv[i]) != ref[i]), f"the right-hand side handed to the linear solve is not the stored reference ratio of element {i}")
+    for pc, vec, abp in rec["renorm"]:
+        for i in range(NE):
+            ask(f"{tag}:factors[{i}]=solution", z3.And(pc, R(vec[i]) != sol[i]), f"RenormAbundance does not receive component {i} of the solution of A r = b")
+        if abp != Ptr("ab", 0):
+            res["viol"].append({"key": f"{tag}:RenormAbundance-args", "what": "RenormAbundance is not applied to the caller's abundances", "replay": {"case": case.name, "target": tdir}})
+    pcr = z3.Or([pc for pc, _, _ in rec["renorm"]])
+    ask(f"{tag}:SUCCESS=>renormalised", z3.And(retz == 0, z3.Not(pcr)), "Naunet::Renorm returns NAUNET_SUCCESS on a path that never calls RenormAbundance")
+    for i in range(NE):
+        ask(f"{tag}:stored-reference[{i}]-preserved", R(post[i]) != ref[i], f"Naunet::Renorm overwrites the stored reference ratio of element {i} (ab_ref_): every later renormalisation aims at a different target",
+            replay=lambda: _native_two_calls(case, p, tdir))
+    ask(f"{tag}:reach-SUCCESS", retz == 0, "", expect="sat")
+    _set_reference(case, p, tdir, res, r)
+    res["solver_s"] += time.time() - t0
+
+
+def _set_reference(case, p, tdir, res, r):
+    """SetReferenceAbund(ref, opt): opt 0 stores ref[i]/ref[H], opt 1 stores GetElementAbund(ref,i)/GetHNuclei(ref)"""
+    from ..irsym import Machine, fdiv
+
+    M, fo, dem, NE, NS, size = r["M"], r["fo"], r["dem"], r["NE"], r["NS"], r["size"]
+    macros = p.macros(tdir)
+    fname = next((n for n, d in dem.items() if d.startswith("Naunet::SetReferenceAbund(")), None)
+    if fname is None:
+        raise Inconclusive("no Naunet::SetReferenceAbund")
+    tag = f"{case.name}/{tdir}:Naunet::SetReferenceAbund"
+    E = [z3.Real(f"E{i}") for i in range(NE)]
+    Hn = z3.Real("Hnuclei")
+    for n, d in _callees(M, fname).items():
+        d = d or ""
+        if d.startswith("GetElementAbund("):
+            def gea(M_, st_, a):
+                if not isinstance(a[1], int) or not (0 <= a[1] < NE):
+                    raise Inconclusive("GetElementAbund index")
+                return st_, E[a[1]]
+            M.stubs[n] = gea
+        elif d.startswith("GetHNuclei("):
+            M.stubs[n] = lambda M_, st_, a: (st_, Hn)
+    s = z3.Solver()
+    s.set("timeout", 60_000)
+    s.add(inv_axioms())
+    for opt in (0, 1):
+        st = State()
+        st.size["this"] = size
+        st.mem["this"] = {fo["ab_ref_"] + 8 * i: z3.Real(f"old{i}") for i in range(NE)}
+        n_in = NE if opt == 0 else NS
+        refin = [z3.Real(f"in{i}") for i in range(n_in)]
+        H.make_array(st, "refin", n_in, refin)
+        _, ret = M.run_function(fname, st, [Ptr("this", 0), Ptr("refin", 0), opt])
+        for i in range(NE):
+            got = st.load("this", fo["ab_ref_"] + 8 * i)
+            exp = fdiv(refin[i], refin[macros["IDX_ELEM_H"]]) if opt == 0 else fdiv(E[i], Hn)
+            name = f"{tag}:opt{opt}[{i}]"
+            rr = str(s.check(R(got) != R(exp)))
+            if rr == "unsat":
+                res["ok"].append(name)
+            elif rr == "sat":
+                res["viol"].append({"key": name, "what": f"SetReferenceAbund(opt={opt}) stores {z3.simplify(R(got))} for element {i}, not {z3.simplify(R(exp))}", "replay": {"case": case.name, "target": tdir, "replay_note": "terms of the compiled function"}})
+            else:
+                res["unknown"].append((name, "solver " + rr))
+
+
+RENORM_MOCK = r"""
+#include <stdio.h>
+#include <stdlib.h>
+#include <math.h>
+#include <sundials/sundials_types.h>
+struct _generic_N_Vector { double *data; long n; };
+struct _generic_SUNMatrix { double *data; long nr, nc; };
+extern "C" {
+int SUNContext_Create(void*, SUNContext*) { return 0; } int SUNContext_Free(SUNContext*) { return 0; }
+N_Vector N_VNew_Serial(sunindextype n, SUNContext) { N_Vector v = new _generic_N_Vector(); v->n = n; v->data = new double[n](); return v; }
+N_Vector N_VMake_Serial(sunindextype n, realtype *d, SUNContext) { N_Vector v = new _generic_N_Vector(); v->n = n; v->data = d; return v; }
+void N_VDestroy(N_Vector) {} void N_VConst(realtype c, N_Vector v) { for (long i = 0; i < v->n; i++) v->data[i] = c; }
+realtype *N_VGetArrayPointer(N_Vector v) { return v->data; }
+SUNMatrix SUNDenseMatrix(sunindextype r, sunindextype c, SUNContext) { SUNMatrix A = new _generic_SUNMatrix(); A->nr = r; A->nc = c; A->data = new double[r * c](); return A; }
+void SUNMatDestroy(SUNMatrix) {}
+realtype *SHIM_SM_ELEMENT_D(SUNMatrix A, sunindextype i, sunindextype j) { return &A->data[i * A->nc + j]; }
+SUNLinearSolver SUNLinSol_Dense(N_Vector, SUNMatrix, SUNContext) { return 0; }
+int SUNLinSolFree(SUNLinearSolver) { return 0; } int SUNLinSolSetup(SUNLinearSolver, SUNMatrix) { return 0; }
+// the integrator is not used by this replay: link-only definitions
+N_Vector N_VNewEmpty_Serial(sunindextype n, SUNContext) { N_Vector v = new _generic_N_Vector(); v->n = n; return v; }
+void N_VSetArrayPointer(realtype *d, N_Vector v) { v->data = d; }
+SUNMatrix SUNSparseMatrix(sunindextype, sunindextype, sunindextype, int, SUNContext) { return 0; } int SUNMatZero(SUNMatrix) { return 0; }
+SUNLinearSolver SUNLinSol_KLU(N_Vector, SUNMatrix, SUNContext) { return 0; }
+void *CVodeCreate(int, SUNContext) { static int x; return &x; } void CVodeFree(void **) {}
+int CVodeSetErrFile(void *, FILE *) { return 0; } int CVodeSetMaxNumSteps(void *, long) { return 0; }
+int CVodeInit(void *, CVRhsFn, realtype, N_Vector) { return 0; } int CVodeSStolerances(void *, realtype, realtype) { return 0; }
+int CVodeSetLinearSolver(void *, SUNLinearSolver, SUNMatrix) { return 0; } int CVodeSetJacFn(void *, CVLsJacFn) { return 0; }
+int CVodeSetUserData(void *, void *) { return 0; } int CVodeReInit(void *, realtype, N_Vector) { return 0; }
+int CVode(void *, realtype tout, N_Vector, realtype *tret, int) { *tret = tout; return 0; }
+int CVodeGetNumSteps(void*, long*){return 0;} int CVodeGetNumRhsEvals(void*, long*){return 0;} int CVodeGetNumLinSolvSetups(void*, long*){return 0;}
+int CVodeGetNumErrTestFails(void*, long*){return 0;} int CVodeGetNumNonlinSolvIters(void*, long*){return 0;} int CVodeGetNumNonlinSolvConvFails(void*, long*){return 0;}
+int CVodeGetNumJacEvals(void*, long*){return 0;} int CVodeGetNumGEvals(void*, long*){return 0;}
+// dense direct solve as SUNDIALS does it: x <- b, then solve in place (Gaussian elimination with pivoting)
+int SUNLinSolSolve(SUNLinearSolver, SUNMatrix A, N_Vector x, N_Vector b, realtype) {
+    long n = A->nr; double *a = new double[n * n];
+    for (long i = 0; i < n * n; i++) a[i] = A->data[i];
+    for (long i = 0; i < n; i++) x->data[i] = b->data[i];
+    for (long c = 0; c < n; c++) {
+        long pv = c; for (long r = c + 1; r < n; r++) if (fabs(a[r * n + c]) > fabs(a[pv * n + c])) pv = r;
+        for (long j = 0; j < n; j++) { double t = a[c * n + j]; a[c * n + j] = a[pv * n + j]; a[pv * n + j] = t; }
+        double t = x->data[c]; x->data[c] = x->data[pv]; x->data[pv] = t;
+        for (long r = c + 1; r < n; r++) { double f = a[r * n + c] / a[c * n + c]; for (long j = c; j < n; j++) a[r * n + j] -= f * a[c * n + j]; x->data[r] -= f * x->data[c]; }
+    }
+    for (long r = n - 1; r >= 0; r--) { for (long j = r + 1; j < n; j++) x->data[r] -= a[r * n + j] * x->data[j]; x->data[r] /= a[r * n + r]; }
+    return 0;
+}
+}
+#include "naunet.h"
+#include "naunet_physics.h"
+int Fex(realtype, N_Vector, N_Vector, void *) { return 0; }
+int Jac(realtype, N_Vector, N_Vector, SUNMatrix, void *, N_Vector, N_Vector, N_Vector) { return 0; }
+int main() {
+    Naunet n;
+    double y0[NEQUATIONS], y[NEQUATIONS];
+    for (int i = 0; i < NEQUATIONS; i++) y0[i] = 1.0 + 0.37 * i;
+    n.SetReferenceAbund(y0, 1);
+    double Hn = GetHNuclei(y0);
+    for (int call = 1; call <= 3; call++) {
+        for (int i = 0; i < NEQUATIONS; i++) y[i] = y0[i] * (1.0 + 0.01 * ((i * 7 + call * 3) % 5));
+        n.Renorm(y);
+        double H2 = GetHNuclei(y);
+        for (int e = 0; e < NELEMENTS; e++) printf("call %d elem %d got %.17g want %.17g\n", call, e, GetElementAbund(y, e) / H2, GetElementAbund(y0, e) / Hn);
+    }
+    return 0;
+}
+"""
+
+
+def _native_two_calls(case, p, tdir):
+    """replay: the real naunet.cpp + naunet_renorm.cpp + naunet_physics.cpp with a dense direct solver; three
+    successive Renorm calls after one SetReferenceAbund"""
+    import os
+    import subprocess
+
+    if ode.KIND[tdir] == "odeint":
+        return {"replay_note": "odeint: aliasing fact of the compiled Naunet::Renorm (no native build without Boost)"}
+    t = p.tdir(tdir)
+    b = os.path.join(t, "native_c16")
+    os.makedirs(b, exist_ok=True)
+    with open(os.path.join(b, "mock.cpp"), "w") as fh:
+        fh.write(RENORM_MOCK)
+    srcs = [os.path.join(t, "src", f) for f in ("naunet.cpp", "naunet_renorm.cpp", "naunet_physics.cpp", "naunet_constants.cpp")]
+    cmd = ["g++", "-std=c++14", "-O0", "-w", "-I", proj.SHIM, "-I", os.path.join(t, "include"), os.path.join(b, "mock.cpp"), *srcs, "-o", os.path.join(b, "renorm"), "-lm"]
+    r = subprocess.run(cmd, capture_output=True, text=True)
+    if r.returncode != 0:
+        return {"replay_note": "native build unavailable: " + r.stderr[-300:]}
+    out = subprocess.run([os.path.join(b, "renorm")], capture_output=True, text=True, timeout=60).stdout
+    bad = []
+    for l in out.splitlines():
+        w = l.split()
+        got, want = float(w[5]), float(w[7])
+        if not (abs(got - want) <= 1e-9 * max(abs(want), 1e-300)):
+            bad.append(l)
+    return {"native_reproduced": bool(bad), "native_mismatches": bad[:6], "replay_cmd": " ".join(cmd)}
+
+
 def main(pid, tier):
     chk = Check("C16", tier)
     proj.ensure_venv()
     cs = cases(tier == "thorough")
     ctx = mp.get_context("fork")
-    with cf.ProcessPoolExecutor(max_workers=8, mp_context=ctx) as ex:
-        results = list(ex.map(_work, [(c, tier) for c in cs]))
+    # one fresh process per unit of work: z3's behaviour on the non-linear queries depends on what the
+    # process has built before, so units never share a process
+    with ctx.Pool(processes=12, maxtasksperchild=1) as pool:
+        results = pool.map(_work, [(c, tier, w) for c in cs for w in ("functions", "class")], chunksize=1)
     for r in results:
         chk.programs += r["programs"]
         chk.solver_s += r["solver_s"]
